@@ -259,6 +259,19 @@ Proof.
     now rewrite (utf8_roundtrip us Hs).
 Qed.
 
+(** * histories of sendBox calls *)
+Lemma history_wires : forall bs, Forall (fun b => NoDup (keys b)) bs ->
+  exists ws, Forall2 (fun b w => serialize b = Some w /\ NoDup (keys b)) (filter accepted bs) ws /\ sent_wire bs = concat ws.
+Proof.
+  induction bs as [|b bs IH]; intros H.
+  - exists []. split; [constructor | reflexivity].
+  - inversion H as [|? ? Hb Hbs]; subst. destruct (IH Hbs) as (ws & Hf & Hc).
+    unfold sent_wire, wire_of, accepted in *. cbn [map concat filter].
+    destruct (serialize b) as [w|] eqn:Hs.
+    + exists (w :: ws). split; [constructor; [split; [exact Hs | exact Hb] | exact Hf] | cbn [concat]; now rewrite Hc].
+    + exists ws. split; [exact Hf | cbn [app]; exact Hc].
+Qed.
+
 (** * the unrepaired serialize: an empty key writes the terminator in the middle of the box (finding F11) *)
 Lemma empty_key_witness :
   let items := [([], [118]); ([97], [98])]%N in
